@@ -14,10 +14,76 @@ import (
 type param struct{ name, typ string }
 
 type sig struct {
-	lean    string  // name of the Lean def: f, or Recv_f for methods
-	params  []param // receiver first
-	results []param // names "" unless the results are named
-	ext     bool    // takes (ext : UnicodeExt) first: it reaches strings.ToUpper/ToLower
+	lean     string  // name of the Lean def: f, or Recv_f for methods
+	params   []param // receiver first
+	results  []param // names "" unless the results are named
+	ext      bool    // takes (ext : UnicodeExt) first: it reaches strings.ToUpper/ToLower
+	method   bool    // params[0] is the receiver
+	variadic bool    // the last parameter is `x ...T` (a []T inside the function)
+	threaded bool    // the method mutates its receiver: it returns the new receiver (main.go, threading)
+}
+
+// structCfg: how a struct that carries STATE is rendered.  A struct without a row (Line) gets every
+// field of a supported type.  A struct with a row gets only the listed fields; its pointer methods
+// may mutate it and then return the new value ("threaded" receiver).
+type structCfg struct {
+	Type       string
+	Fields     []string // ordinary fields translated functions may touch
+	ChanFields []string // `chan string` fields rendered as FIFO queues (List Bytes); only `x.f <- v` is supported
+	Scalars    bool     // instead of Fields: every field of type string / int / bool
+}
+
+var structTable = []structCfg{
+	{Type: "Conn", Fields: []string{"cfg"}, ChanFields: []string{"out"}},
+	{Type: "Config", Scalars: true},
+	{Type: "capSet", Fields: []string{"caps"}},
+}
+
+func structRow(t string) *structCfg {
+	for i := range structTable {
+		if structTable[i].Type == strings.TrimPrefix(t, "*") {
+			return &structTable[i]
+		}
+	}
+	return nil
+}
+
+func has(list []string, x string) bool {
+	for _, y := range list {
+		if x == y {
+			return true
+		}
+	}
+	return false
+}
+
+// fieldKind of field f of struct st: "value" (translated), "chan" (a queue), "mutex" (its Lock/Unlock
+// calls are dropped: sequential semantics), "" (not translated: any use is UNSUPPORTED).
+func (p *pkg) fieldKind(st string, f param) string {
+	row := structRow(st)
+	switch {
+	case f.name == "":
+	case f.typ == "sync.Mutex" || f.typ == "sync.RWMutex":
+		return "mutex"
+	case row == nil && p.leanType(f.typ) != "" && p.zero(f.typ) != "":
+		return "value"
+	case row == nil:
+	case has(row.ChanFields, f.name) && f.typ == "chan string":
+		return "chan"
+	case row.Scalars && (f.typ == "string" || f.typ == "int" || f.typ == "bool"):
+		return "value"
+	case has(row.Fields, f.name) && p.leanType(f.typ) != "" && p.fieldZero(f.typ) != "":
+		return "value"
+	}
+	return ""
+}
+
+// fieldZero: a pointer-to-struct FIELD of a state struct is rendered as the struct value (never nil)
+func (p *pkg) fieldZero(t string) string {
+	if strings.HasPrefix(t, "*") && structRow(t) != nil {
+		return "{}"
+	}
+	return p.zero(t)
 }
 
 func (p *pkg) isStruct(t string) bool { return p.structs[strings.TrimPrefix(t, "*")] != nil }
@@ -36,6 +102,8 @@ func (p *pkg) leanType(t string) string {
 		return "Bool"
 	case t == "map[string]string":
 		return "Option (List (Bytes × Bytes))"
+	case t == "map[string]bool":
+		return "Option (List (Bytes × Bool))"
 	case strings.HasPrefix(t, "[]"):
 		// elements must be values: slices of slices / maps / pointers would share memory per element
 		if el := p.leanType(t[2:]); el != "" && !strings.HasPrefix(t[2:], "[]") && !strings.HasPrefix(t[2:], "map") && !strings.HasPrefix(t[2:], "*") {
@@ -59,7 +127,7 @@ func (p *pkg) zero(t string) string {
 		return "0"
 	case t == "bool":
 		return "false"
-	case t == "map[string]string":
+	case t == "map[string]string" || t == "map[string]bool":
 		return "none"
 	case p.isStruct(t) && !strings.HasPrefix(t, "*"):
 		return "{}"
@@ -73,6 +141,9 @@ func fieldParams(fl *ast.FieldList) (ps []param) {
 	}
 	for _, f := range fl.List {
 		t := typeStr(f.Type)
+		if el, ok := f.Type.(*ast.Ellipsis); ok { // x ...T is a []T inside the function
+			t = "[]" + typeStr(el.Elt)
+		}
 		if len(f.Names) == 0 {
 			ps = append(ps, param{"", t})
 		}
@@ -90,6 +161,10 @@ func (p *pkg) signature(fd *ast.FuncDecl) (*sig, string) {
 	}
 	s.params = append(fieldParams(fd.Recv), fieldParams(fd.Type.Params)...)
 	s.results = fieldParams(fd.Type.Results)
+	s.method = fd.Recv != nil
+	if n := fd.Type.Params.NumFields(); n > 0 {
+		_, s.variadic = fd.Type.Params.List[len(fd.Type.Params.List)-1].Type.(*ast.Ellipsis)
+	}
 	for _, q := range append(append([]param{}, s.params...), s.results...) {
 		if p.leanType(q.typ) == "" {
 			return nil, "unsupported type " + q.typ + " in the signature"
@@ -106,6 +181,9 @@ func (p *pkg) signature(fd *ast.FuncDecl) (*sig, string) {
 // resultType is the Lean type inside M: pointer results become Option (nil = none).
 func (p *pkg) resultType(s *sig) string {
 	var ts []string
+	if s.threaded { // the new receiver comes first
+		ts = append(ts, p.leanType(s.params[0].typ))
+	}
 	for _, r := range s.results {
 		t := p.leanType(r.typ)
 		if strings.HasPrefix(r.typ, "*") {
@@ -205,29 +283,56 @@ func (p *pkg) declLean(name string) string {
 	var skipped []string
 	fmt.Fprintf(&b, "structure %s where\n", name)
 	for _, f := range fieldParams(st.Fields) {
-		if lt := p.leanType(f.typ); lt != "" && p.zero(f.typ) != "" && f.name != "" {
-			fmt.Fprintf(&b, "  %s : %s := %s\n", f.name, lt, p.zero(f.typ))
-		} else {
+		switch p.fieldKind(name, f) {
+		case "value":
+			fmt.Fprintf(&b, "  %s : %s := %s\n", f.name, p.leanType(f.typ), p.fieldZero(f.typ))
+		case "chan":
+			fmt.Fprintf(&b, "  %s : List Bytes := [] -- %s: the queue, oldest first\n", f.name, f.typ)
+		default:
 			skipped = append(skipped, f.name+" "+f.typ)
 		}
 	}
 	b.WriteString("deriving DecidableEq, Repr\n")
-	if len(skipped) > 0 {
-		fmt.Fprintf(&b, "-- fields of %s not translated (unsupported type): %s\n", name, strings.Join(skipped, ", "))
+	if why := " (unsupported type)"; len(skipped) > 0 {
+		if structRow(name) != nil {
+			why = " (not listed in the translator's struct table, or unsupported type)"
+		}
+		fmt.Fprintf(&b, "-- fields of %s not translated%s: %s\n", name, why, strings.Join(skipped, ", "))
 	}
 	return "\n" + b.String()
 }
 
-// fieldType of struct (or pointer-to-struct) type t; "" when absent or not translated.
+// structDeps: the structs whose declaration must precede that of struct `name`
+func (p *pkg) structDeps(name string) (deps []string) {
+	if st := p.structs[name]; st != nil {
+		for _, f := range fieldParams(st.Fields) {
+			if p.fieldKind(name, f) == "value" && p.isStruct(f.typ) {
+				deps = append(deps, strings.TrimPrefix(f.typ, "*"))
+			}
+		}
+	}
+	return
+}
+
+// fieldType of struct (or pointer-to-struct) type t; "" when absent or not translated.  Channel and
+// mutex fields report their Go type (they have no Lean type: only sends / Lock calls may mention them).
 func (p *pkg) fieldType(t, field string) string {
 	st := p.structs[strings.TrimPrefix(t, "*")]
 	if st == nil {
 		return ""
 	}
 	for _, f := range fieldParams(st.Fields) {
-		if f.name == field && p.leanType(f.typ) != "" && p.zero(f.typ) != "" {
+		if f.name == field && p.fieldKind(strings.TrimPrefix(t, "*"), f) != "" {
 			return f.typ
 		}
+	}
+	return ""
+}
+
+// valueField: the Go type of a field that is rendered as a Lean structure field, else ""
+func (p *pkg) valueField(t, field string) string {
+	if ft := p.fieldType(t, field); p.leanType(ft) != "" {
+		return ft
 	}
 	return ""
 }
@@ -240,7 +345,13 @@ var leanKeywords = map[string]bool{"at": true, "by": true, "do": true, "end": tr
 	"true": true, "false": true, "M": true, "Rt": true, "Go": true,
 	// names the generated code itself uses: a Go local of that name must not capture them
 	"fields": true, "trimSpace": true, "hasPrefix": true, "hasSuffix": true, "toUpper": true, "toLower": true, "join": true,
-	"decide": true, "throw": true, "List": true, "Int": true, "Bytes": true, "Option": true}
+	"decide": true, "throw": true, "List": true, "Int": true, "Bytes": true, "Option": true,
+	// more Lean tokens that are legal Go identifiers
+	"prefix": true, "infix": true, "infixl": true, "infixr": true, "postfix": true, "notation": true, "macro": true, "syntax": true,
+	"elab": true, "abbrev": true, "example": true, "axiom": true, "private": true, "protected": true, "partial": true, "unsafe": true,
+	"noncomputable": true, "local": true, "scoped": true, "attribute": true, "export": true, "mutual": true, "class": true,
+	"inductive": true, "extends": true, "nomatch": true, "nofun": true, "forall": true, "exists": true, "sorry": true, "calc": true,
+	"suffices": true, "obtain": true, "opaque": true, "lemma": true, "set_option": true, "omit": true, "include": true, "initialize": true}
 
 func leanIdent(name string) string {
 	if leanKeywords[name] {
